@@ -85,12 +85,17 @@ class Facts:
         self.n_bodies = d["n_bodies"]
         # helpers the reference tree does not have are inlined into their callers (see rules/astnorm.py)
         self.inlined_sites = 0
+        self.new_consts = {}
         if os.environ.get("VERIF_NO_ASTNORM") != "1":
             kp = os.path.join(os.path.dirname(os.path.dirname(os.path.abspath(__file__))), "tables", "known_fns.json")
             if os.path.exists(kp):
                 import astnorm
                 with open(kp) as f:
-                    known = set(json.load(f)["paths"])
+                    kd = json.load(f)
+                known = set(kd["paths"])
+                kc = set(canon_generics(c) for c in kd.get("consts", []))
+                # constants the reference tree does not have (introduced by an edit): expanded wherever they are used
+                self.new_consts = {b.path: b for b in self.bodies if b.dk in ("Const", "AssocConst") and canon_generics(b.path) not in kc}
                 try:
                     self.inlined_sites = astnorm.inline_new_helpers(self, known)
                     if self.inlined_sites:
